@@ -20,6 +20,7 @@ V3 == JsonDeserialize("eea3.json").cases
 VS == JsonDeserialize("snow3g.json").cases
 VZ == JsonDeserialize("zuc.json").cases
 VA == JsonDeserialize("aes.json")
+KC == JsonDeserialize("ks_corners.json")           \* frozen keystream corner points: a word equal to its predecessor, all zero, all ones
 ZC == JsonDeserialize("zuc_corners.json")          \* frozen corner points of the ZUC arithmetic (tools/zuccorners)
 IdxOf(s) == 1..Len(s)
 Items ==
@@ -27,6 +28,7 @@ Items ==
   \cup ({"snow3g"} \X IdxOf(VS) \X {0}) \cup ({"zuc"} \X IdxOf(VZ) \X {0})
   \cup ({"aesblock"} \X IdxOf(VA.block) \X {0}) \cup ({"aesctr"} \X IdxOf(VA.ctr) \X {0})
   \cup ({"zuccorner"} \X {i \in IdxOf(ZC) : ZC[i].kind = "eea3"} \X {0})
+  \cup ({"kscorner"} \X IdxOf(KC) \X {0})
   \cup ({"perm"} \X (1..4) \X {0})
   \cup ({"alpha"} \X (1..4) \X (0..255))
   \cup ({"laws"} \X (0..3) \X (0..MaxBits))
@@ -60,6 +62,14 @@ ItemOK ==
     [] k = "aesblock" -> LET c == VA.block[i] IN AES!Encrypt(c.key, c.data) = c.out
     [] k = "aesctr" -> LET c == VA.ctr[i] IN AES!CtrXor(c.key, c.ctr, c.data) = c.out
     [] k = "zuccorner" -> LET c == ZC[i] IN ZUC!CornerReached(c.key, EEA3iv(c.cnt, c.bearer, c.dir), c.clock, c.pred)
+    [] k = "kscorner" -> LET c == KC[i]  n == c.word + 1
+                             ks == IF c.alg = 1 THEN EEA1ks(c.key, c.cnt, c.bearer, c.dir, 32 * n)
+                                   ELSE ZUC!ZucBytes(c.key, EEA3iv(c.cnt, c.bearer, c.dir), n)
+                             w(q) == SubSeq(ks, 4 * q - 3, 4 * q)
+                         IN CASE c.pred = "word_repeats" -> w(c.word) = w(c.word + 1)
+                              [] c.pred = "zero_word" -> w(c.word) = <<0, 0, 0, 0>>
+                              [] c.pred = "ones_word" -> w(c.word) = <<255, 255, 255, 255>>
+                              [] OTHER -> FALSE
     [] k = "perm" -> Perm(CASE i = 1 -> S3G!SR [] i = 2 -> S3G!SQ [] i = 3 -> ZUC!ZS0 [] OTHER -> ZUC!ZS1)
     [] k = "alpha" -> LET w == WordAt(i, j) IN S3G!DivAlphaW(S3G!MulAlphaW(w)) = w /\ S3G!MulAlphaW(S3G!DivAlphaW(w)) = w
     [] k = "laws" -> Laws(i, j)
